@@ -673,6 +673,19 @@ type genState struct {
 func genCase(rng *hx.Rng, n int) []string {
 	g := &genState{views: []int{0}, depth: map[int]int{0: 0}, wrapDepth: map[int]int{0: 0}, next: 1, realm: map[int]string{0: ""}, bkeys: map[int][]string{}}
 	var ops []string
+	// values: mostly 0..4 bytes, now and then a long one (a store that keeps only so many bytes, a fixed-size buffer, ...)
+	genVal := func() string {
+		if rng.Chance(1, 40) {
+			b := make([]byte, rng.Range(17, 90))
+			for i := range b {
+				b[i] = byte(rng.Intn(256))
+			}
+
+			return hx.Hex(b)
+		}
+
+		return genBytes(rng, 4, valAlphabet)
+	}
 	newHandle := func() int { g.next++; return g.next - 1 }
 	addView := func(parent int, line string, h int, isWrap bool) {
 		ops = append(ops, line)
@@ -779,6 +792,15 @@ func genCase(rng *hx.Rng, n int) []string {
 			}
 		}
 
+		if rng.Chance(1, 60) { // a long key
+			b := make([]byte, rng.Range(9, 40))
+			for i := range b {
+				b[i] = hx.Pick(rng, bulkAlphabet)
+			}
+
+			return hx.Hex(b)
+		}
+
 		return genBytes(rng, 3, alphabet)
 	}
 	prefixFor := func(realm string) string {
@@ -794,7 +816,7 @@ func genCase(rng *hx.Rng, n int) []string {
 		key := keyFor(g.realm[v])
 		switch x := rng.Intn(1000); {
 		case x < 280:
-			ops = append(ops, fmt.Sprintf("set %d %s %s", v, key, genBytes(rng, 4, valAlphabet)))
+			ops = append(ops, fmt.Sprintf("set %d %s %s", v, key, genVal()))
 			g.pool = append(g.pool, g.realm[v]+string(hx.UnHex(key)))
 		case x < 370:
 			ops = append(ops, fmt.Sprintf("get %d %s", v, key))
@@ -859,10 +881,10 @@ func genCase(rng *hx.Rng, n int) []string {
 			h := newHandle()
 			g.realm[h] = g.realm[v]
 			k1, k2 := keyFor(g.realm[v]), keyFor(g.realm[v])
-			ops = append(ops, fmt.Sprintf("batch %d %d", h, v), fmt.Sprintf("bset %d %s %s", h, k1, genBytes(rng, 4, valAlphabet)),
+			ops = append(ops, fmt.Sprintf("batch %d %d", h, v), fmt.Sprintf("bset %d %s %s", h, k1, genVal()),
 				fmt.Sprintf("bdel %d %s", h, k2), fmt.Sprintf("cancel %d", h))
 			if rng.Bool() {
-				ops = append(ops, fmt.Sprintf("bset %d %s %s", h, keyFor(g.realm[v]), genBytes(rng, 4, valAlphabet)))
+				ops = append(ops, fmt.Sprintf("bset %d %s %s", h, keyFor(g.realm[v]), genVal()))
 			}
 			ops = append(ops, fmt.Sprintf("commit %d", h), fmt.Sprintf("iter %d - fwd 0", v))
 			g.batches = append(g.batches, h)
@@ -877,18 +899,18 @@ func genCase(rng *hx.Rng, n int) []string {
 			v2 := pickView()
 			g.realm[h1], g.realm[h2] = g.realm[v], g.realm[v2]
 			k1, k2 := keyFor(g.realm[v]), keyFor(g.realm[v2])
-			ops = append(ops, fmt.Sprintf("batch %d %d", h1, v), fmt.Sprintf("bset %d %s %s", h1, k1, genBytes(rng, 4, valAlphabet)))
+			ops = append(ops, fmt.Sprintf("batch %d %d", h1, v), fmt.Sprintf("bset %d %s %s", h1, k1, genVal()))
 			if rng.Chance(3, 4) {
 				ops = append(ops, fmt.Sprintf("commit %d", h1))
 			} else {
 				ops = append(ops, fmt.Sprintf("cancel %d", h1))
 			}
-			ops = append(ops, fmt.Sprintf("batch %d %d", h2, v2), fmt.Sprintf("bset %d %s %s", h2, k2, genBytes(rng, 4, valAlphabet)))
+			ops = append(ops, fmt.Sprintf("batch %d %d", h2, v2), fmt.Sprintf("bset %d %s %s", h2, k2, genVal()))
 			switch rng.Intn(5) {
 			case 0, 1:
 				ops = append(ops, fmt.Sprintf("cancel %d", h1))
 			case 2:
-				ops = append(ops, fmt.Sprintf("bset %d %s %s", h1, keyFor(g.realm[v]), genBytes(rng, 4, valAlphabet)))
+				ops = append(ops, fmt.Sprintf("bset %d %s %s", h1, keyFor(g.realm[v]), genVal()))
 			case 3:
 				ops = append(ops, fmt.Sprintf("bdel %d %s", h1, hx.Hex(hx.UnHex(k2))))
 			default:
@@ -912,7 +934,7 @@ func genCase(rng *hx.Rng, n int) []string {
 			g.bkeys[b] = append(g.bkeys[b], key)
 			switch y := rng.Intn(125); {
 			case y < 60:
-				ops = append(ops, fmt.Sprintf("bset %d %s %s", b, key, genBytes(rng, 4, valAlphabet)))
+				ops = append(ops, fmt.Sprintf("bset %d %s %s", b, key, genVal()))
 				g.pool = append(g.pool, g.realm[b]+string(hx.UnHex(key)))
 			case y < 85:
 				ops = append(ops, fmt.Sprintf("bdel %d %s", b, key))
@@ -942,6 +964,63 @@ func genCase(rng *hx.Rng, n int) []string {
 			}
 		}
 	}
+
+	return ops
+}
+
+var bulkAlphabet = []byte{0x00, 0x01, 0x02, 0x10, 0x20, 0x3f, 0x40, 0x55, 0x7e, 0x7f, 0x80, 0xa5, 0xc3, 0xf0, 0xfe, 0xff}
+
+// genBulkCase: a store with a few hundred entries (written directly and through one big batch, through a view and the root,
+// below a random wrapper), then iterations in both directions with and without prefix and stop, DeletePrefix, Clear: whatever
+// depends on the NUMBER of entries (a sort that changes its algorithm with the size, a capped snapshot, a batch that spills)
+// or on long values.
+func genBulkCase(rng *hx.Rng) []string {
+	var ops []string
+	top := 0
+	if rng.Bool() {
+		ops = append(ops, "wrap 1 0 "+hx.Pick(rng, []string{"f", "d", "dn"}))
+		top = 1
+	}
+	realm := genBytes(rng, 2, bulkAlphabet)
+	ops = append(ops, fmt.Sprintf("view 2 %d %s %s", top, realm, hx.Pick(rng, []string{"abs", "ext"})), "batch 9 2")
+	n := rng.Range(120, 400)
+	key := func() string {
+		b := make([]byte, rng.Range(1, 3))
+		for i := range b {
+			b[i] = hx.Pick(rng, bulkAlphabet)
+		}
+
+		return hx.Hex(b)
+	}
+	val := func() string {
+		if rng.Chance(1, 10) {
+			b := make([]byte, rng.Range(20, 90))
+			for i := range b {
+				b[i] = byte(rng.Intn(256))
+			}
+
+			return hx.Hex(b)
+		}
+
+		return genBytes(rng, 4, valAlphabet)
+	}
+	for i := 0; i < n; i++ {
+		switch rng.Intn(8) {
+		case 0, 1:
+			ops = append(ops, fmt.Sprintf("set 2 %s %s", key(), val()))
+		case 2:
+			ops = append(ops, fmt.Sprintf("set %d %s%s %s", top, strings.TrimPrefix(realm, "-"), strings.TrimPrefix(key(), "-"), val()))
+		case 3:
+			ops = append(ops, fmt.Sprintf("bdel 9 %s", key()))
+		default:
+			ops = append(ops, fmt.Sprintf("bset 9 %s %s", key(), val()))
+		}
+	}
+	p1 := hx.Hex([]byte{hx.Pick(rng, bulkAlphabet)})
+	ops = append(ops, "iterk 0 - fwd 0", "commit 9", "iter 0 - fwd 0", "iter 0 - bwd 0", "iterk 2 - bwd 0", fmt.Sprintf("iter 2 %s fwd 0", p1),
+		fmt.Sprintf("iterk %d %s bwd %d", top, strings.TrimPrefix(realm, "-")+strings.TrimPrefix(p1, "-"), rng.Range(1, 40)),
+		fmt.Sprintf("iter 0 - def %d", rng.Range(10, 100)), fmt.Sprintf("delp 2 %s", p1), "iterk 0 - fwd 0", "commit 9", "iterk 2 - def 0",
+		"clear 2", "iter 0 - fwd 0", "commitf 9", "iter 0 - bwd 0")
 
 	return ops
 }
@@ -1442,7 +1521,7 @@ func main() {
 		"GetIterDirection) + random histories (40 ops; every second one over TWO store trees with Copy/CopyBatched between and within them) over view trees of depth <= 3 and wrapper stacks of depth <= 3, keys/prefixes/realms over " +
 		"{00,01,7f,ff} of length 0..3, values of length 0..4, both directions + default; non-trivial = at least two distinct " +
 		"realms created, one iteration reporting >= 2 entries and three successful mutations; distinct by sha256 of the op lines; zero-length " +
-		"arguments are nil slices half of the time; + memory stream (600 histories of ~80 requests in which every byte slice is a numbered buffer " +
+		"arguments are nil slices half of the time, 1 in 40 values is 17..90 bytes long; + 12 bulk histories (120..400 entries, long values); + memory stream (600 histories of ~80 requests in which every byte slice is a numbered buffer " +
 		"the caller holds, overwrites and reuses at any time, over a random wrapper stack; non-trivial = at least three caller writes and one " +
 		"iteration handing out >= 2 entries)"
 	if lines := r.ReplayLines(); lines != nil {
@@ -1469,6 +1548,12 @@ func main() {
 	for i := 0; i < 600*r.Scale; i++ {
 		rng, sub := r.Rng.Fork()
 		runMemCase(r, sub, rng, nil)
+	}
+	// a few big stores (hundreds of entries, long values)
+	for i := 0; i < 12*r.Scale; i++ {
+		rng, sub := r.Rng.Fork()
+		runCase(r, sub, nilify(rng, genBulkCase(rng)))
+		r.Count("bulk-cases")
 	}
 	n := 4000 * r.Scale
 	if r.Tier == "thorough" {
